@@ -82,6 +82,18 @@ void AbstractParameterAliasable::aliasParameters(const std::string& p1, const st
 
   if (aliasListenersRegister_.find(idCheck) != aliasListenersRegister_.end())
     throw Exception("AbstractParameterAliasable::aliasParameters. Trying to alias parameter " + p2 + " to " + p1 + ", but parameter " + p1 + " is already aliased to parameter " + p2 + ".");
+
+  // p1 must not follow p2, directly or through a chain (this includes p1 == p2):
+  string current = p1;
+  for (size_t i = 0; i <= getNumberOfParameters(); ++i)
+  {
+    if (current == p2)
+      throw Exception("AbstractParameterAliasable::aliasParameters. Trying to alias parameter " + p2 + " to " + p1 + ", but this would create a cycle.");
+    current = getFrom(getNamespace() + current);
+    if (current == "")
+      break;
+  }
+
   Parameter* param1 = &getParameter_(p1);
   Parameter* param2 = &getParameter_(p2);
 
